@@ -1000,6 +1000,12 @@ func genBase(t *rapid.T, k int) string {
 			fmt.Fprintf(&sb, "a%d(%d)%s.\n", k, num(t), constAnn(t, tm))
 		}
 	}
+	if chance(t, "hasPairs", 35) { // plain key-value facts that an interactive definition may later put under a merge predicate
+		gi := rng(t, "pairPred", 0, 2)
+		for i, n := 0, rng(t, "nFilePairs", 1, 3); i < n; i++ {
+			fmt.Fprintf(&sb, "g%d(%s, %d).\n", gi, pick(t, "filePairKey", "/a", "/b", "/c"), rng(t, "filePairVal", 2, 9))
+		}
+	}
 	if chance(t, "hasO", 30) { // annotated head over a body without time
 		fmt.Fprintf(&sb, "o%d(X)%s :- p%d(X).\n", k, constAnn(t, tm), k)
 	}
@@ -1133,6 +1139,8 @@ const (
 	dAggregate = "aggregate"    // rule with a do-transform over interactive or file predicates
 	dNegation  = "negation"     // rule with a negated atom
 	dChange    = "change-input" // a fact for a predicate that a non-monotone rule of the live buffer reads
+	dPairs     = "pair-facts"   // plain facts g<i>(key, value) without a declaration
+	dLattice   = "lattice"      // g<i> declared with a functional dependency and a merge predicate, preferred values derived for keys that may have a fact in an earlier fragment
 )
 
 // nmInput is a predicate read by a non-monotone interactive rule that a later define can extend;
@@ -1156,7 +1164,8 @@ func genDefine(t *rapid.T, j int, kind string, ses *session) (Cmd, []nmInput) {
 	if kind == "" {
 		kind = pick(t, "defkind", dFact, dFact, dFact, dRule, dRule, dRule, dDecl, dTemporal, dTemporal, dTemporal, dTemporal, dTemporal,
 			dExtend, dMulti, dParseErr, dAnalysis, dAnalysis, dEvalErr, dEvalErr, dRedefine, dRedefine, dRedeclare,
-			dAggregate, dAggregate, dAggregate, dAggregate, dNegation, dNegation, dNegation, dNegation)
+			dAggregate, dAggregate, dAggregate, dAggregate, dNegation, dNegation, dNegation, dNegation,
+			dPairs, dPairs, dPairs, dLattice, dLattice, dLattice)
 	}
 	if kind == dChange && len(ses.inputs) == 0 {
 		kind = dFact
@@ -1269,6 +1278,19 @@ func genDefine(t *rapid.T, j int, kind string, ses *session) (Cmd, []nmInput) {
 		}
 		text = facts + fmt.Sprintf("f%d(X) :- %s(X), !%s(X).", i, pos, neg)
 		inputs = []nmInput{{pred: neg, vals: vals}}
+	case dPairs:
+		for k, n := 0, rng(t, "npairs", 1, 3); k < n; k++ {
+			text += fmt.Sprintf("g%d(%s, %d).\n", i, pick(t, "pairKey", "/a", "/b", "/c"), rng(t, "pairVal", 2, 9))
+		}
+	case dLattice:
+		text = fmt.Sprintf("\nDecl g%[1]d(K, V) descr [fundep([K], [V]), merge([V], \"lower%[1]d\")].\nDecl lower%[1]d(A, B, C) descr [mode('+', '+', '-'), deferred()].\n", i)
+		for k, n := 0, rng(t, "noffers", 1, 3); k < n; k++ {
+			text += fmt.Sprintf("offer%d(%s, %d).\n", i, pick(t, "offerKey", "/a", "/b", "/c"), rng(t, "offerVal", 0, 9))
+		}
+		text += fmt.Sprintf("g%[1]d(K, V) :- offer%[1]d(K, V).\nlower%[1]d(A, B, C) :- A < B, C = A.\nlower%[1]d(A, B, C) :- B <= A, C = B.\n", i)
+		if chance(t, "latticeThenFail", 30) { // rejected at evaluation, in a stratum above the merged predicate
+			text += fmt.Sprintf("z%[1]d(Y) :- g%[1]d(K, V), Y = fn:div(V, 0).\n", i)
+		}
 	case dChange:
 		in, v := pick(t, "input", ses.inputs...), num(t)
 		if len(in.vals) > 0 && chance(t, "hitInput", 70) {
